@@ -29,7 +29,7 @@ fn check_one(ty: &str, got: &Version, a: u64, b: u64, c: u64, d: Option<u64>, de
             return Err(Failure::new("tuple-prints-differently", format!("{} prints {:?}, expected {:?}", ctx(), printed, text)));
         }
         if (a ^ b ^ c) % 4 == 0 {
-            if let Err(m) = display_survives_failing_writer(got, &text) {
+            if let Err(m) = display_survives_failing_writer(got, &text, &|s| Version::parse(s).map(|w| fields5(&w) == fields5(got)).unwrap_or(false)) {
                 return Err(Failure::new("tuple-prints-differently", format!("{}: {}", ctx(), m)));
             }
         }
